@@ -238,12 +238,15 @@ func (p *Path) Decode(format string, v string) bool {
 	}
 
 	if unixSec > 0 {
-		p.Start = time.Unix(unixSec, int64(micros)*1000)
+		p.Start = time.Unix(unixSec, int64(micros)*1000).In(loc)
 	} else {
 		p.Start = time.Date(year, month, day, hour, minute, second, micros*1000, loc)
 	}
 
-	return true
+	// recognize a name only if it is the one Encode writes for the decoded path and start:
+	// out-of-range fields (month 13, hour 25), non-canonical time zones (+0000)
+	// and placeholders that appear more than once with different values are rejected.
+	return p.Encode(format) == v
 }
 
 // Encode encodes a path.
